@@ -40,7 +40,10 @@ def valid_lines(rng, n):
 
 MALFORMED = [b"\n", b";\n", b"*;\n", b"*\n", b"x\n", b"*zz;\n", b"*8d4;\n", b"*\xc3\xa9;\n", b"\xc3\xa9\n", b"*00000000000000;\n",
              b"*0000000000000000000000000000;\n", b"*08000000000000;\n", b"*8d;\n", b"8da2c1bd587ba2adb31799cb802b\n", b"**;;\n", b"\xff\xfe\n",
-             b"*8DA2C1BD587BA2ADB31799CB80;\n"]
+             b"*8DA2C1BD587BA2ADB31799CB80;\n",
+             # valid UTF-8 with a multi-byte character at the very end, before the `;`, as the whole body
+             "*8D4840D6202CC371C32CE05760\u00e9\n".encode(), "*\u20ac\n".encode(), "*8d4840\u00e9;\n".encode(), "\u00e9;\n".encode(),
+             "*;\u00e9\n".encode(), "\U0001F6E9\n".encode()]
 
 
 def concretise(rng, kinds, sched):
